@@ -29,6 +29,12 @@ var (
 //	closeIncrements     parentStreamReader.close nils the cursor and does atomic.AddUint32(&p.closedNum, 1)
 //	closeAtLen          … and calls p.sr.Close() iff int(that value) == len(p.subStreamList)
 //	closeIdempotent     … after returning early when the cursor is already nil
+//	convForwarderClosesSource / childForwarderClosesSource   exit path and loop of the toStream goroutines
+//	eofByIdentity       every end-of-stream test on the receive paths of copies and merged non-pipe sources
+//	                    (parentStreamReader.peek: two `err != io.EOF`; both toStream loops: one `err == io.EOF`)
+//	                    compares the error with the sentinel by identity, and none of the receive functions
+//	                    calls errors.Is / errors.As (so an error ELEMENT that merely wraps or claims io.EOF
+//	                    is not the end of the stream)
 func factsC08(r *Repo) []Fact {
 	var out []Fact
 	sp := r.Pkg("schema")
@@ -285,7 +291,78 @@ func factsC08(r *Repo) []Fact {
 		})
 		out = append(out, boolFact(fw.fact, ok, "schema/"+file+": "+fw.recv+".toStream"))
 	}
+	out = append(out, c08EOFByIdentity(sp))
 	return out
+}
+
+// c08EOFByIdentity: see factsC08.  Counted per function: comparisons `x == io.EOF` / `x != io.EOF`
+// (either operand order) and calls errors.Is / errors.As (with any arguments: on these paths there
+// is nothing else they could be testing for, except ErrNoValue in streamReaderWithConvert.recv,
+// which is allowed there and only there).
+func c08EOFByIdentity(sp *Pkg) Fact {
+	type want struct {
+		recv, fn string
+		ident    int // identity comparisons with io.EOF expected
+		isOK     int // errors.Is calls allowed (the ErrNoValue test)
+	}
+	wants := []want{
+		{"parentStreamReader", "peek", 2, 0},
+		{"streamReaderWithConvert", "toStream", 1, 0},
+		{"childStreamReader", "toStream", 1, 0},
+		{"streamReaderWithConvert", "recv", 0, 1},
+		{"childStreamReader", "recv", 0, 0},
+		{"multiStreamReader", "recv", 0, 0},
+		{"stream", "recv", 0, 0},
+		{"arrayReader", "recv", 0, 0},
+		{"StreamReader", "Recv", 0, 0},
+	}
+	ok := true
+	var notes []string
+	for _, w := range wants {
+		fd, _ := sp.Func(w.recv, w.fn)
+		if fd == nil || fd.Body == nil {
+			return unknownFact("eofByIdentity", "Bool", "false", "schema", w.recv+"."+w.fn+" not found")
+		}
+		ident, other, is := 0, 0, 0
+		ast.Inspect(fd.Body, func(n ast.Node) bool {
+			switch v := n.(type) {
+			case *ast.BinaryExpr:
+				l, r := exprString(v.X), exprString(v.Y)
+				if l == "io.EOF" || r == "io.EOF" {
+					if v.Op == token.EQL || v.Op == token.NEQ {
+						ident++
+					} else {
+						other++
+					}
+				}
+			case *ast.CallExpr:
+				switch exprString(v.Fun) {
+				case "errors.Is":
+					if w.isOK > 0 && len(v.Args) == 2 && exprString(v.Args[1]) == "ErrNoValue" {
+						is++
+					} else {
+						other++
+					}
+				case "errors.As", "errors.Unwrap":
+					other++
+				}
+			case *ast.CaseClause:
+				// `switch err { case io.EOF: }` would be an identity test too, but is not what the code
+				// does: counted as unrecognised
+				for _, e := range v.List {
+					if exprString(e) == "io.EOF" {
+						other++
+					}
+				}
+			}
+			return true
+		})
+		if ident != w.ident || other != 0 || is > w.isOK {
+			ok = false
+		}
+		notes = append(notes, fmt.Sprintf("%s.%s: ==/!= io.EOF %d (want %d), other tests %d", w.recv, w.fn, ident, w.ident, other))
+	}
+	return boolFact("eofByIdentity", ok, "schema/stream.go: "+strings.Join(notes, "; "))
 }
 
 func c08SelectCases(fl *ast.FuncLit) ([]string, string) {
